@@ -2,21 +2,28 @@ import QV.Model.Compiler
 /-!
 # Decidable sub-classes of the compiler fragment for cleanliness (C03) and xor-oracles (C06)
 
-`inFragment` (in `QV/Model/Compiler.lean`) is the class of `QV.C02.C02_fragment_partial`.  With
-`uncompute = true` the compiled circuit of an instance of that class need not be clean: `compile_or`
-with three or more distinct argument qubits (the De Morgan branch `X… MCX X… X`) flips its argument
-qubits temporarily; when the result ancilla is later marked and uncomputed, `uncompute` replays the
-`MCX` *without* the surrounding `X` gates (they target argument qubits, which are not marked), so the
-ancilla is handed back dirty (open finding `C03-uncompute-stale`).  `inCleanFragment` excludes that:
-every `Or` has at most two arguments.  It also asks for a non-empty return list: with no return name
-nothing is kept, `uncompute_all` replays the gates of the result qubit after their controls were
-already uncomputed.
+`inFragment` (in `QV/Model/Compiler.lean`) is the class of `QV.C02.C02_fragment_partial`.
+`inCleanFragment`, the class of `QV.C03.C03_fragment_partial`, is now the same class: either the defined
+name is a requested return bit (the statement ends with the inline `uncompute` and the final
+`uncompute_all` finds every gate target kept or already freed) or no return name is requested (the
+statement ends with `keep_ancillas` and `uncompute_all([])` replays every gate in reverse).
+
+History: for the unrepaired compiler the class also asked (1) that every `Or` has at most two arguments
+(`smallOr`): `compile_or` with three or more distinct argument qubits took a De Morgan branch
+(`X… MCX X… X`) that flipped its argument qubits temporarily, and `uncompute` replayed the `MCX` without
+the surrounding `X` gates (finding `C03-uncompute-stale`, repaired: `compile_or` now folds binary ors
+into new ancillas), and (2) for a non-empty return list: with no return name nothing was kept and
+`uncompute_all` replayed the gates of the result qubit after their controls had been uncomputed inline
+(repaired: ancillas of a definition that is not a return bit are kept until `uncompute_all`).  `smallOr`
+is kept for the witness about the unrepaired compiler (`QV.C03.C03_fragment_demorgan_witness`); it is no
+longer part of any class.
 -/
 namespace QV.Compiler
 open QV
 
 mutual
-/-- every `Or` sub-expression has at most two arguments (`compile_or` never takes its De Morgan branch) -/
+/-- every `Or` sub-expression has at most two arguments (the unrepaired `compile_or` never took its De
+Morgan branch); not part of any class any more -/
 def smallOr : BExp → Bool
   | .not a => smallOr a
   | .and l => smallOrList l
@@ -28,13 +35,10 @@ def smallOrList : List BExp → Bool
   | a :: as => smallOr a && smallOrList as
 end
 
-/-- the class of `QV.C03.C03_fragment_partial`: `inFragment`, at least one requested return name, and
-every `Or` with at most two arguments -/
+/-- the class of `QV.C03.C03_fragment_partial`: `inFragment` (`Or`s of any arity; every requested return
+name is the defined one, or none is requested) -/
 def inCleanFragment (inputs : List String) (defs : List (String × BExp)) (rets : List String) : Bool :=
-  inFragment inputs defs rets && !rets.isEmpty &&
-    (match defs with
-     | [(_, e)] => smallOr e
-     | _ => false)
+  inFragment inputs defs rets
 
 /-- the class of `QV.C06.C06_fragment_partial`: `inCleanFragment` and the output qubit is not an
 argument qubit (a bare argument symbol is copied into a new qubit only under a return name `_ret…`,
